@@ -560,6 +560,77 @@ func udpGroups(th bool) []*group {
 			},
 		})
 	}
+	// A client session that already has a server session (and, in the second variant, an older one too): the
+	// unpacker keeps per-server-session state (current and old slot, each with its cipher and replay filter),
+	// and a datagram's server session id selects the slot before anything is authenticated.
+	for _, cfg := range cfgs {
+		cfg := cfg
+		for _, primed := range []int{1, 2} {
+			primed := primed
+			name := fmt.Sprintf("ss2022-udp-client-live%d/%s", primed, cfg.name)
+			var cc *ss2022.ClientCipherConfig
+			switch {
+			case cfg.eih:
+				cc = must(ss2022.NewClientCipherConfig(upskA, [][]byte{ipsk16}, true))
+			case cfg.saltLen == 16:
+				cc = must(ss2022.NewClientCipherConfig(psk16, nil, true))
+			default:
+				cc = must(ss2022.NewClientCipherConfig(psk32, nil, true))
+			}
+			csid := binary.BigEndian.Uint64(detRand(8))
+			body := func(ssid, pid uint64) []byte {
+				return cat(sep(ssid, pid), udpServerBody(nowUnix, csid, 0, s5v4([4]byte{8, 8, 8, 8}, 53), []byte("reply")))
+			}
+			const s1, s2 = uint64(0x1111111111111111), uint64(0x2222222222222222)
+			prime := [][]byte{cfg.buildServerPacket(kind(kFixedVar, body(s1, 0))), cfg.buildServerPacket(kind(kFixedVar, body(s2, 0)))}[:primed]
+			var ids [][]byte
+			for _, ssid := range []uint64{0, 1, s1, s2, s1 + 1, ^uint64(0)} {
+				for _, pid := range []uint64{0, 1, 2, 1 << 32, ^uint64(0)} {
+					ids = append(ids, body(ssid, pid))
+				}
+			}
+			parts := []part{
+				&listPart{name: name + "/session-id-list", head: []byte{kFixedVar}, items: ids},
+				newMut1(name+"/wire-mut1", []byte{kRaw}, prime[:1]),
+				newAlpha(name+"/raw-alpha-after-zero-session-id", cat([]byte{kRaw}, make([]byte, 0)), nil, byteAlpha(0x00, 0x01, 0xff), 0, LRaw),
+				newTrunc(name+"/wire-truncations", []byte{kRaw}, prime[:1]),
+			}
+			client := ss2022.NewUDPClient("x", "ip", conn.AddrFromIPPort(udpProxyAddrPort), udpMTU, conn.DefaultUDPClientListenConfig, 0, cc, ss2022.PadPlainDNS)
+			gs = append(gs, &group{
+				name: name, desc: fmt.Sprintf("ss2022 client session unpacker that has already accepted datagrams of %d server session(s): a further datagram from the far server (every server session id / packet id class, mutations and truncations of an accepted one, raw bytes)", primed),
+				parts: parts, seedsMustPass: false,
+				run: func(w *worker, in []byte) {
+					vcrand.Reset()
+					_, sess, err := client.NewSession(context.Background())
+					if err != nil {
+						fatalf("ss2022 client NewSession: %v", err)
+					}
+					unp := sess.Unpacker
+					front := unp.ClientUnpackerInfo().Headroom.Front
+					step := func(wire []byte, what string) {
+						n := min(len(wire), udpRecvSize)
+						buf := make([]byte, front+udpRecvSize+64)
+						copy(buf[front:], wire[:n])
+						w.ops++
+						w.protect(what, func() {
+							if _, _, _, err := unp.UnpackInPlace(buf, udpProxyAddrPort, front, n); err != nil {
+								w.class("err")
+								return
+							}
+							w.class("ok")
+							w.sum.Accepted++
+						})
+					}
+					for _, v := range prime {
+						step(v, "client unpacker: priming datagram")
+					}
+					w.wire = cfg.buildServerPacket(in)
+					step(w.wire, "client unpacker with live server sessions")
+					step(w.wire, "client unpacker with live server sessions: the same datagram again")
+				},
+			})
+		}
+	}
 	return gs
 }
 
